@@ -326,7 +326,7 @@ func init() {
 			"(a path that accepts X and re-encodes it exactly in box-tree mode obliges the other path to accept X and give a deep-equal structure incl. grouping and start positions), then re-decodes through a seeded legal delivery schedule and with the stream cut at byte b or failing at read k. " +
 			"non-trivial = a delivery/transport/capacity fault fired; distinct = hash of (X identity, transport ops, acceptance pattern, delivered read sizes, outcomes).",
 		Assumptions: []string{"structural equivalence = reflective deep comparison incl. unexported fields with nil==empty", "inputs failing the precondition (neither path reproduces X) impose nothing", "leaf-box decoder pairs are only exercised for box types present in corpus/packager/transport output"},
-		Real: realLib, Stub: append([]string{"unit transport (box-level drop/dup/swap/move/splice with size repair)"}, stubIO...), RealNoFault: realNoFault,
+		Real:        realLib, Stub: append([]string{"unit transport (box-level drop/dup/swap/move/splice with size repair)"}, stubIO...), RealNoFault: realNoFault,
 		Runs:       map[string]int{"quick": 50000, "thorough": 3000000},
 		Setup:      c03Setup,
 		Run:        c03Run,
